@@ -37,6 +37,8 @@ func c07Components() []compDef {
 		{name: "components/card.v2", args: []string{"n"}, slots: []string{"body", "foot"}, stmts: []*tw.Stmt{tw.Text("<card "), tw.Print(tw.Bin("+", tw.Var("n"), intLit(1))), tw.Text(" page="), tw.Print(tw.Var("i1")), tw.Text(">"),
 			slot("body"), tw.Text("<hr>"), slot("foot"), tw.Text("</card>\n")}},
 		{name: "c2", args: nil, slots: []string{""}, stmts: []*tw.Stmt{tw.Text("<c2 "), tw.Print(tw.Var("s1")), tw.Text(">"), slot(""), tw.Text("</c2>")}},
+		// two placeholders whose names differ in letter case only: each shows the body passed under exactly its name
+		{name: "c5", slots: []string{"title", "Title"}, stmts: []*tw.Stmt{tw.Text("<c5>"), slot("title"), tw.Text("|"), slot("Title"), tw.Text("</c5>")}},
 		// nothing is passed to these two: all they show comes from the surrounding loop
 		{name: "c3", needs: "lv", stmts: []*tw.Stmt{tw.Text("<c3 "), tw.Print(tw.Var("lv")), tw.Text(" "), tw.Print(tw.Bin("+", tw.Var("i1"), intLit(1))), tw.Text(">")}},
 		{name: "c4", needs: "fv", stmts: []*tw.Stmt{tw.Text("<c4 "), tw.Print(tw.Bin("*", tw.Var("fv"), intLit(10))), tw.Text(">")}},
@@ -195,7 +197,7 @@ func (u *useGen) page(depth int) []*tw.Stmt {
 
 func TestC07_Components(t *testing.T) {
 	c := harness.New(t, "C07", "components",
-		"pages with 1..4 uses of six component files (arguments used in text, expressions and conditions; a page variable that is not passed; two files that take nothing and show the variable of the loop around the use; default and named top-level slots; one under components/ addressed by '~name'): the same component several times with different arguments and different / missing slot bodies, uses inside @each and @for (arguments and slot bodies from the loop variable, >= 2 passes), inside @if/@elseif/@else, inside the @else of @each and @for, inside @insert blocks of a layout, and inside the slot body passed to another use; slot bodies with text and {{ }} over page variables. Expected: reference instantiation (arguments evaluated at the place of use, surrounding scope visible, each placeholder replaced by the body passed by that use or nothing). Non-trivial: one component used >= 2 times or a use evaluated in a loop. Distinct by hash of files + data.")
+		"pages with 1..4 uses of seven component files (two placeholders whose names differ in letter case only; arguments used in text, expressions and conditions; a page variable that is not passed; two files that take nothing and show the variable of the loop around the use; default and named top-level slots; one under components/ addressed by '~name'): the same component several times with different arguments and different / missing slot bodies, uses inside @each and @for (arguments and slot bodies from the loop variable, >= 2 passes), inside @if/@elseif/@else, inside the @else of @each and @for, inside @insert blocks of a layout, and inside the slot body passed to another use; slot bodies with text and {{ }} over page variables. Expected: reference instantiation (arguments evaluated at the place of use, surrounding scope visible, each placeholder replaced by the body passed by that use or nothing). Non-trivial: one component used >= 2 times or a use evaluated in a loop. Distinct by hash of files + data.")
 	defer c.Finish()
 	in := interp()
 	runRapid(t, c, 4000, 45000, func(rt *rapid.T) {
@@ -305,7 +307,7 @@ func TestC07_TwoUsesEnum(t *testing.T) {
 
 func TestC07_Errors(t *testing.T) {
 	c := harness.New(t, "C07", "errors",
-		"load-time error classes, each inside an otherwise valid generated page: a slot the component does not declare (named and default), a slot passed twice (named and default), a missing component file (plain and '~' name); NewTemplate must fail and the message must name the component. Non-trivial: all. Distinct by hash.")
+		"load-time error classes, each inside an otherwise valid generated page: a slot the component does not declare (named - an unrelated name, a declared name in another letter case, with a trailing blank, shortened or lengthened - and default), a slot passed twice (named and default), a missing component file (plain and '~' name); NewTemplate must fail and the message must name the component. Non-trivial: all. Distinct by hash.")
 	defer c.Finish()
 	runRapid(t, c, 600, 7500, func(rt *rapid.T) {
 		env := genDataEnv().Draw(rt, "data")
@@ -318,7 +320,8 @@ func TestC07_Errors(t *testing.T) {
 		mention := ""
 		switch kind {
 		case "undeclared-named-slot":
-			bad = &tw.Stmt{Kind: tw.SComponent, Name: "c1", Arg: tw.Obj([]string{"flag", "s"}, []*tw.Expr{tw.Bool(true), tw.Str("s")}), Slots: []*tw.Stmt{{Kind: tw.SSlot, Name: "nosuch", Body: body, Text: "\n"}}, Text: "\n"}
+			// an unrelated name, or a declared name in another letter case or with a blank: not that slot
+			bad = &tw.Stmt{Kind: tw.SComponent, Name: "c1", Arg: tw.Obj([]string{"flag", "s"}, []*tw.Expr{tw.Bool(true), tw.Str("s")}), Slots: []*tw.Stmt{{Kind: tw.SSlot, Name: rapid.SampledFrom([]string{"nosuch", "Head", "HEAD", "head ", "hea", "heads"}).Draw(rt, "undeclaredName"), Body: body, Text: "\n"}}, Text: "\n"}
 			mention = "c1"
 		case "undeclared-default-slot":
 			bad = &tw.Stmt{Kind: tw.SComponent, Name: "~card.v2", Arg: tw.Obj([]string{"n"}, []*tw.Expr{intLit(1)}), Slots: []*tw.Stmt{{Kind: tw.SSlot, Name: "", Body: body, Text: "\n"}}, Text: "\n"}
